@@ -61,19 +61,28 @@ CHECKS = {
         "begin_spec, increment_walks_inorder (next element in order, end after the last, validity preserved), valid_iter_eq_iff_same_element and iter_equals_iff (equal exactly at the same position; all end iterators equal), lower_bound_comparisons (O(log n)). "
         "find_refines is in C01. Tie: lower_bound sweeps over every key in/between/below/above the stored keys with exact and wildcard comparators, iterator equality, full walks and every remove's next, compared as dereferenced element and index path per level.",
    note="remove_next_is_successor (the `next` of a successful remove is at the in-order successor, for leaf- and inode-resident victims) is proved in Properties/C01Remove. Comparator argument order and user data are checked by the harness on the implementation.", ref="§5 C02"),
- "C10": dict(cat="translation_validation", tech="Lean 4 executable model of the C scans (index ranges) and Lean transcription of the C++17 rules, both validated: model vs implementation, rules vs libstdc++, implementation vs libstdc++; theorems in progress",
-   text="Every string over {/ . a} up to length 9 (12 thorough): the eight views as (offset,length), all queries and the component iterator frames equal the model's; the harness judges each answer against libstdc++ and checks slices; ASan with exact-size inputs observes that nothing outside the string is read.",
-   note="POSIX build only; libstdc++ 12 stands in for the C++17 model; out-of-bounds reads are runtime-checked.", ref="§5 C10"),
- "C11": dict(cat="translation_validation", tech="Lean 4 executable model of the element-by-element normaliser and Lean transcription of [fs.path.generic]/6, validated against implementation and libstdc++; theorems in progress",
-   text="Every string over {/ . a} up to length 9 (12 thorough): output text equals the model's; on the implementation itself: normal form, same path as libstdc++ lexically_normal, idempotent.",
+ "C10": dict(cat="proof", tech="Lean 4 theorems relating the C scans (index ranges) to a Lean transcription of the C++17 rules, for every NUL-free string; the transcription itself is cross-checked against libstdc++, the scans against the implementation",
+   text="Proved for every string: views_are_slices, has_iff_nonempty (all queries), filename_eq_stem_append_extension (text and adjacency), decomp_text_eq_cpp17 (filename, stem, extension, relative_path are textually the C++17 results), "
+        "root_parent_same_path (root directory, root path and parent path denote the C++17 path), is_absolute_iff. Tie: every string over {/ . a} up to length 9 (12 thorough) plus random bytes: ranges, queries and iterator frames equal the model's; "
+        "the harness judges every answer against libstdc++; ASan with exact-size inputs observes that nothing outside the string is read.",
+   note="POSIX build only; libstdc++ 12 stands in for the C++17 model when validating the Lean transcription; 'no byte outside the input is read' is runtime-checked.", ref="§5 C10"),
+ "C11": dict(cat="proof", tech="Lean 4 theorems (the element-by-element normaliser denotes the C++17 normal form; normal-form predicate; idempotence; fixed points) for every NUL-free string, with the C++17 rules cross-checked against libstdc++",
+   text="Proved for every string: normal_same_path_as_cpp17 (parse (normalize s) = C++17 lexically_normal as a path value), cpp17_normal_is_normal and normal_form (no '.' unless the result is '.', no name/.., no .. under the root, no separator after a trailing .., "
+        "no repeated separators, non-empty for non-empty input), normal_idempotent, normal_fixes_normal_paths. Tie: output text equals the model's on every string over {/ . a} up to length 9 (12 thorough); on the implementation itself the harness checks normal form, "
+        "path equality with libstdc++ and idempotence.",
    note="POSIX build; a multi-separator root is collapsed to one separator (same path).", ref="§5 C11"),
- "C12": dict(cat="translation_validation", tech="Lean 4 executable model of join / lexically_relative (over the component-iterator model) / preferred, validated against implementation and libstdc++ on all pairs of short strings; theorems in progress",
-   text="All pairs of strings over {/ . a} up to length 5 (6 thorough) plus random pairs and NULL arguments: text (or NULL) equals the model's; join judged against operator/ text, relative against libstdc++ (NULL iff empty, same path); ASan with exact-size arguments.",
-   note="POSIX build.", ref="§5 C12"),
+ "C12": dict(cat="proof", tech="Lean 4 theorems (join text = C++17 operator/; the component iterator yields the C++17 iteration sequence; lexically_relative NULL iff empty and same element sequence otherwise) for all pairs of NUL-free strings",
+   text="Proved for all pairs: join_eq_cpp17_text, join_null (NULL = empty), iter_elements_eq_cpp17, relative_null_iff_cpp17_empty, relative_same_path, preferred_id_posix. Tie: all pairs of strings over {/ . a} up to length 5 (6 thorough) plus random pairs and NULL "
+        "arguments: text or NULL equals the model's; the harness judges join against operator/ text and relative against libstdc++; ASan with exact-size arguments observes in-bounds reads and writes.",
+   note="POSIX build; out-of-bounds access is runtime-checked.", ref="§5 C12"),
  "C14": dict(cat="translation_validation", tech="Lean 4 executable model of zix_copy_file over an abstract file system with an arbitrary per-call fault oracle, validated against the implementation with every system call interposed (linker --wrap); theorems in progress",
    text="Scenarios: source kind x size around the block size x destination state (absent, file, same path, hard link, symlink, directory) x option x kernel copy available/EXDEV/EINVAL-after-partial x injected errno or short count at every call position x block refusal. "
         "Compared: status, source intact, destination bytes, descriptor balance (API) and the system-call trace (white-box). Theorems (SUCCESS implies complete copy for every fault oracle, source untouched, no-fault success, EXCL, descriptors closed) are being added.",
    note="Abstract POSIX layer (open/fstat/ftruncate/read/write/copy_file_range/fdatasync/close with errno); no concurrent modification; durability after power loss not modelled.", ref="§5 C14"),
+ "C15": dict(cat="translation_validation", tech="Lean 4 executable model (file-type table regenerated; file_equals page loop; create_directories over an abstract tree using the path-iterator model) validated against the implementation on a real scratch tree and against direct system calls; theorems in progress",
+   text="create_directories on every path shape over {a, b, ., .., empty} up to 4 (5 thorough) components x 7 pre-existing trees: status, directory-afterwards, idempotence and the resulting tree equal the model's; file_equals on size pairs around 0/512/page/3 pages with the difference at boundaries, "
+        "hard links, refused page allocation; file/symlink type for 9 kinds against the regenerated table and stat/lstat; file_size; canonical_path vs realpath; dir_for_each; descriptor balance on every call. file_type_table is proved by decide; the other theorems are being added.",
+   note="Symlinks, permissions and races are exercised against the real file system only; the theorems are about the symlink-free tree.", ref="§5 C15"),
 }
 
 NOT_YET = "check not built yet in this revision (framework under construction; see DESIGN.md §8)"
